@@ -8,6 +8,8 @@ mod c09;
 mod c16;
 mod c19;
 mod world;
+mod vw;
+mod vcases;
 mod c20;
 mod out;
 mod par;
@@ -34,6 +36,7 @@ fn main() {
     match prop {
         "C13" => c13::run(tier, seed, outdir),
         "C16" => c16::run(tier, seed, outdir),
+        "C01" | "C02" | "C03" | "C05" | "C06" | "C08" | "C12" => vcases::run(prop, tier, seed, outdir),
         "C19" => c19::run(tier, seed, outdir),
         "C09" => c09::run(tier, seed, outdir),
         "C20" => c20::run(tier, seed, outdir),
